@@ -5,3 +5,16 @@ merger's k-way merge."""
 
 def collect(P):
     P.int_const("SORT_HIGHEST_BIT", "common/src/lib.rs", r"^const HIGHEST_BIT: u64 = ([^;]+);", "u64")
+    # merger.rs segment_has_live_nulls: which cardinalities are declared null-free without a scan.
+    # 1 = only `Full` (Optional and Multivalued columns are scanned); 0 = everything but `Optional`
+    # (the pre-fix shape, finding F171: a Multivalued column with a live value-less document is not scanned).
+    rel = "src/indexer/merger.rs"
+    text = P.src(rel) or ""
+    import re
+    m = re.search(r"fn segment_has_live_nulls\b.*?if col\.get_cardinality\(\) (==|!=) columnar::Cardinality::(Full|Optional) \{\s*return false;", text, re.S)
+    if m and (m.group(1), m.group(2)) in (("==", "Full"), ("!=", "Optional")):
+        val = 1 if m.group(2) == "Full" else 0
+        P.items.append(("SORT_LIVE_NULLS_SCANS_MULTIVALUED", "N", val, rel, text.count("\n", 0, m.start(1)) + 1))
+        P.env["SORT_LIVE_NULLS_SCANS_MULTIVALUED"] = val
+    else:
+        P.broken.append({"pin": "SORT_LIVE_NULLS_SCANS_MULTIVALUED", "file": rel, "why": "segment_has_live_nulls no longer starts with one of the two pinned cardinality tests"})
